@@ -193,6 +193,9 @@ func (ix *BM25SearchIndex) Add(id uint32, text string) error {
 	if _, exists := ix.docTokens[id]; exists {
 		ix.removeInternal(id)
 	}
+	// Re-adding a soft-deleted ID (update = remove + add) revives it with the
+	// new text; without this the document stays hidden and the next Flush drops it.
+	ix.deletedDocs.Remove(id)
 
 	normText := normalize(text)
 	tokens := tokenize(normText)
